@@ -67,7 +67,10 @@ inline std::vector<KernelGroup> kernel_groups(bool thorough) {
   return g;
 }
 
+#ifndef VF_PCM_DEFINED
+#define VF_PCM_DEFINED
 struct PCm { void* f; int64_t m; };
+#endif
 struct PCd { void* f; int64_t m; double divisor; };
 
 typedef std::function<void(ApiCase&, const KernelInfo&)> KFn;
